@@ -363,6 +363,12 @@ pub fn run(ctx: &Ctx) -> i32 {
             n_hint += 1;
         }
     }
+    // testing aid (determinism self-test): below nominal scale only a fixed subsample of the units runs
+    let subsampled = ctx.scale < 100;
+    if subsampled {
+        let mut i = 0u64;
+        units.retain(|u| { i += 1; u.first_of_tuple || (i * 7919) % 100 < ctx.scale });
+    }
     let outs = run_indexed(units.len(), ctx.workers, |i| run_unit(all[units[i].set_idx], &units[i], i as u64));
 
     let mut evals = 0u64;
@@ -409,7 +415,7 @@ pub fn run(ctx: &Ctx) -> i32 {
         samples,
         exhaustive: false,
         extra: json!({
-            "per_tuple_fault_space_enumerated_completely": true,
+            "per_tuple_fault_space_enumerated_completely": !subsampled,
             "tuples_full": n_full,
             "tuples_hint_stratum": n_hint,
             "tuples_unverifiable_skipped": unverifiable,
